@@ -141,10 +141,10 @@ fn segment(is: &mut InstanceState<'_, L>, m: &mut M, r: &mut Rng, keys: &mut Vec
         match choice {
             0..=13 => {
                 let got = is.verif_create_entry(&k).map_err(|e| format!("create_entry trapped: {}", e))?;
-                m.log.push(format!("create_entry {} -> {:#x}", vmon_core::hex(&k), got));
+                m.log.push(format!("create_entry {} -> {:#x}", hx(&k), got));
                 if m.locked_at_or_under(&k) {
                     sh.hit("refused.create_under_lock");
-                    expect!(m, got, NONE, "create_entry of {} under a live iterator", vmon_core::hex(&k));
+                    expect!(m, got, NONE, "create_entry of {} under a live iterator", hx(&k));
                 } else {
                     if m.contents.contains_key(&k) {
                         for h in m.handles.iter_mut() {
@@ -161,7 +161,7 @@ fn segment(is: &mut InstanceState<'_, L>, m: &mut M, r: &mut Rng, keys: &mut Vec
                     }
                     m.contents.insert(k.clone(), vec![]);
                     let want = m.new_handle(&k);
-                    expect!(m, got, want, "create_entry of {}", vmon_core::hex(&k));
+                    expect!(m, got, want, "create_entry of {}", hx(&k));
                     issued_h.push(got);
                     keys.push(k);
                     sh.hit("create.ok");
@@ -169,7 +169,7 @@ fn segment(is: &mut InstanceState<'_, L>, m: &mut M, r: &mut Rng, keys: &mut Vec
             }
             14..=21 => {
                 let got = is.verif_delete_entry(&k).map_err(|e| format!("delete_entry trapped: {}", e))?;
-                m.log.push(format!("delete_entry {} -> {}", vmon_core::hex(&k), got));
+                m.log.push(format!("delete_entry {} -> {}", hx(&k), got));
                 let want = if m.contents.is_empty() {
                     1 // the lock map is not consulted on an empty tree; nothing can be locked there anyway
                 } else if m.locked_at_or_under(&k) {
@@ -182,11 +182,11 @@ fn segment(is: &mut InstanceState<'_, L>, m: &mut M, r: &mut Rng, keys: &mut Vec
                 } else {
                     1
                 };
-                expect!(m, got, want, "delete_entry of {}", vmon_core::hex(&k));
+                expect!(m, got, want, "delete_entry of {}", hx(&k));
             }
             22..=26 => {
                 let got = is.verif_delete_prefix(&mut energy, &k).map_err(|e| format!("delete_prefix trapped: {}", e))?;
-                m.log.push(format!("delete_prefix {} -> {}", vmon_core::hex(&k), got));
+                m.log.push(format!("delete_prefix {} -> {}", hx(&k), got));
                 let want = if m.contents.is_empty() {
                     1
                 } else if m.locked_related(&k) {
@@ -205,17 +205,17 @@ fn segment(is: &mut InstanceState<'_, L>, m: &mut M, r: &mut Rng, keys: &mut Vec
                         2
                     }
                 };
-                expect!(m, got, want, "delete_prefix of {}", vmon_core::hex(&k));
+                expect!(m, got, want, "delete_prefix of {}", hx(&k));
             }
             27..=34 => {
                 let got = is.verif_lookup_entry(&k);
-                m.log.push(format!("lookup_entry {} -> {:#x}", vmon_core::hex(&k), got));
+                m.log.push(format!("lookup_entry {} -> {:#x}", hx(&k), got));
                 if m.contents.contains_key(&k) {
                     let want = m.new_handle(&k);
-                    expect!(m, got, want, "lookup_entry of {}", vmon_core::hex(&k));
+                    expect!(m, got, want, "lookup_entry of {}", hx(&k));
                     issued_h.push(got);
                 } else {
-                    expect!(m, got, NONE, "lookup_entry of absent key {}", vmon_core::hex(&k));
+                    expect!(m, got, NONE, "lookup_entry of absent key {}", hx(&k));
                 }
             }
             35..=44 => {
@@ -223,10 +223,10 @@ fn segment(is: &mut InstanceState<'_, L>, m: &mut M, r: &mut Rng, keys: &mut Vec
                     continue;
                 }
                 let got = is.verif_iterator(&k);
-                m.log.push(format!("iterator {} -> {:#x}", vmon_core::hex(&k), got));
+                m.log.push(format!("iterator {} -> {:#x}", hx(&k), got));
                 let snap: Vec<Vec<u8>> = m.contents.keys().filter(|x| x.starts_with(&k)).cloned().collect();
                 if snap.is_empty() {
-                    expect!(m, got, NONE, "iterator over prefix {} without entries", vmon_core::hex(&k));
+                    expect!(m, got, NONE, "iterator over prefix {} without entries", hx(&k));
                 } else {
                     let idx = m.iters.len();
                     let want = ((m.gen as u64) << 32) | idx as u64;
@@ -238,7 +238,7 @@ fn segment(is: &mut InstanceState<'_, L>, m: &mut M, r: &mut Rng, keys: &mut Vec
                         sh.hit("iterator.nested_prefixes");
                     }
                     m.iters.push(Some(IterM { prefix: k.clone(), snapshot: snap, pos: 0, started: false }));
-                    expect!(m, got, want, "iterator over prefix {}", vmon_core::hex(&k));
+                    expect!(m, got, want, "iterator over prefix {}", hx(&k));
                     issued_i.push(got);
                     sh.hit("iterator.created");
                 }
@@ -263,19 +263,19 @@ fn segment(is: &mut InstanceState<'_, L>, m: &mut M, r: &mut Rng, keys: &mut Vec
                         let key = im.snapshot[im.pos].clone();
                         im.pos += 1;
                         if !m.contents.contains_key(&key) {
-                            return Err(format!("model inconsistency: snapshot key {} vanished although it was locked", vmon_core::hex(&key)));
+                            return Err(format!("model inconsistency: snapshot key {} vanished although it was locked", hx(&key)));
                         }
                         let want = m.new_handle(&key);
-                        expect!(m, got, want, "iterator_next of {:#x} (expected to yield key {})", it, vmon_core::hex(&key));
+                        expect!(m, got, want, "iterator_next of {:#x} (expected to yield key {})", it, hx(&key));
                         issued_h.push(got);
                         // the key the iterator reports must be the snapshot key
                         let sz = is.verif_iterator_key_size(it);
-                        expect!(m, sz, key.len() as u32, "iterator_key_size after yielding {}", vmon_core::hex(&key));
+                        expect!(m, sz, key.len() as u32, "iterator_key_size after yielding {}", hx(&key));
                         let mut buf = vec![0u8; key.len() + 3];
                         let n = is.verif_iterator_key_read(it, &mut buf, 0);
-                        expect!(m, n, key.len() as u32, "iterator_key_read length after yielding {}", vmon_core::hex(&key));
+                        expect!(m, n, key.len() as u32, "iterator_key_read length after yielding {}", hx(&key));
                         if buf[..key.len()] != key[..] {
-                            return Err(format!("iterator {:#x} reports key {} but the snapshot at creation has {} next", it, vmon_core::hex(&buf[..key.len()]), vmon_core::hex(&key)));
+                            return Err(format!("iterator {:#x} reports key {} but the snapshot at creation has {} next", it, hx(&buf[..key.len()]), hx(&key)));
                         }
                         sh.hit("iterator.yield");
                     }
@@ -351,9 +351,9 @@ fn segment(is: &mut InstanceState<'_, L>, m: &mut M, r: &mut Rng, keys: &mut Vec
                         let v = &m.contents[&hm.key];
                         let o = (off as usize).min(v.len());
                         let n = (v.len() - o).min(len);
-                        expect!(m, got, n as u32, "entry_read of {} ({} bytes) at offset {} into {} bytes", vmon_core::hex(&hm.key), v.len(), off, len);
+                        expect!(m, got, n as u32, "entry_read of {} ({} bytes) at offset {} into {} bytes", hx(&hm.key), v.len(), off, len);
                         if buf[..n] != v[o..o + n] {
-                            return Err(format!("entry_read of {} returned other bytes than the model holds", vmon_core::hex(&hm.key)));
+                            return Err(format!("entry_read of {} returned other bytes than the model holds", hx(&hm.key)));
                         }
                         sh.hit("entry.read");
                     }
@@ -375,7 +375,7 @@ fn segment(is: &mut InstanceState<'_, L>, m: &mut M, r: &mut Rng, keys: &mut Vec
                         let mut buf = vec![0u8; 8192];
                         let fresh = is.verif_lookup_entry(&hm.key);
                         let w = m.new_handle(&hm.key);
-                        expect!(m, fresh, w, "lookup_entry of {}", vmon_core::hex(&hm.key));
+                        expect!(m, fresh, w, "lookup_entry of {}", hx(&hm.key));
                         let n = is.verif_entry_read(fresh, &mut buf, 0) as usize;
                         let sz = is.verif_entry_size(fresh) as usize;
                         if n == sz && n <= buf.len() {
@@ -388,14 +388,14 @@ fn segment(is: &mut InstanceState<'_, L>, m: &mut M, r: &mut Rng, keys: &mut Vec
                         let v = m.contents.get_mut(&hm.key).unwrap();
                         let off = off as usize;
                         if off > v.len() {
-                            expect!(m, got, 0u32, "entry_write past the end of {} ({} bytes) at offset {}", vmon_core::hex(&hm.key), v.len(), off);
+                            expect!(m, got, 0u32, "entry_write past the end of {} ({} bytes) at offset {}", hx(&hm.key), v.len(), off);
                         } else {
                             let end = (off + src.len()).min(MAX_ENTRY_SIZE);
                             if v.len() < end {
                                 v.resize(end, 0);
                             }
                             v[off..end].copy_from_slice(&src[..end - off]);
-                            expect!(m, got, (end - off) as u32, "entry_write to {} at offset {}", vmon_core::hex(&hm.key), off);
+                            expect!(m, got, (end - off) as u32, "entry_write to {} at offset {}", hx(&hm.key), off);
                             sh.hit("entry.write");
                         }
                     }
@@ -412,7 +412,7 @@ fn segment(is: &mut InstanceState<'_, L>, m: &mut M, r: &mut Rng, keys: &mut Vec
                     }
                     Some(hm) if hm.unspecified => {}
                     Some(hm) => {
-                        expect!(m, got, m.contents[&hm.key].len() as u32, "entry_size of {}", vmon_core::hex(&hm.key));
+                        expect!(m, got, m.contents[&hm.key].len() as u32, "entry_size of {}", hx(&hm.key));
                     }
                 }
             }
@@ -436,7 +436,7 @@ fn segment(is: &mut InstanceState<'_, L>, m: &mut M, r: &mut Rng, keys: &mut Vec
                         Some(hm) if hm.unspecified => {
                             let fresh = is.verif_lookup_entry(&hm.key);
                             let w = m.new_handle(&hm.key);
-                            expect!(m, fresh, w, "lookup_entry of {}", vmon_core::hex(&hm.key));
+                            expect!(m, fresh, w, "lookup_entry of {}", hx(&hm.key));
                             let sz = is.verif_entry_size(fresh) as usize;
                             let mut buf = vec![0u8; sz];
                             let n = is.verif_entry_read(fresh, &mut buf, 0) as usize;
@@ -447,7 +447,7 @@ fn segment(is: &mut InstanceState<'_, L>, m: &mut M, r: &mut Rng, keys: &mut Vec
                         }
                         Some(hm) => {
                             m.contents.get_mut(&hm.key).unwrap().resize(new as usize, 0);
-                            expect!(m, got, 1u32, "entry_resize of {} to {}", vmon_core::hex(&hm.key), new);
+                            expect!(m, got, 1u32, "entry_resize of {} to {}", hx(&hm.key), new);
                             sh.hit("entry.resize");
                         }
                     }
@@ -466,6 +466,11 @@ pub fn run(ctx: &ChildCtx, sh: &mut Shard) {
     for idx in ctx.indices() {
         ctx.begin_case(idx);
         let mut r = ctx.case_rng(idx);
+        let huge = !miri && ctx.san.is_empty() && r.chance(1, 150);
+        HUGE_KEYS.store(huge, std::sync::atomic::Ordering::Relaxed);
+        if huge {
+            sh.hit("histories.huge_keys");
+        }
         let mut m = M { contents: Model::new(), epoch: BTreeMap::new(), next_epoch: 1, gen: 0, iters: vec![], handles: vec![], log: vec![] };
         let mut keys: Vec<Vec<u8>> = vec![];
         // initial contents, sometimes living on "disk"
